@@ -57,7 +57,9 @@ def rule_r1(ctx: Ctx) -> None:
                 runs = explore(lambda: _prop(ctx, M.build_model(ctx, SER + "_composite.DelimitedType", inner=inner, extent=ext), "bit_length_set"))
             except NotLayout as ex:
                 raise AnalysisError("DelimitedType.bit_length_set: %s" % ex)
-            terms[rev] = sorted(repr(t) for _, t in runs)
+            want_t = 32 + TBls.of(8).repeat_range(ext // 8)
+            # compared as layout terms (closed terms: as the sets they denote), shown as text
+            terms[rev] = sorted((repr(want_t) if (isinstance(t, TBls) and t == want_t) else repr(t)) for _, t in runs)
             ctx.count()
         shown = terms["A"][0] if terms["A"] else "?"
         want = repr(32 + TBls.of(8).repeat_range(ext // 8))
